@@ -393,7 +393,7 @@ func checkTTHRoundTrip(c TTHCase, cv *cov) (v *evid.Violation) {
 					return
 				}
 				if i%2 == 1 {
-					r.Release(nil)
+					r.Release(releaseArg(i / 2))
 				}
 			} else if !bytes.Equal(stream[fr.off+dp.HeaderLen:fr.off+dp.HeaderLen+dp.PayloadLen], fr.payload) {
 				v = evid.Failf("frame %d: HeaderLen/PayloadLen do not delimit the payload", i)
